@@ -127,9 +127,14 @@ func run(steps []step) {
 		case scn.OpLines:
 			l := st.ev.Line
 			for k := 0; k < st.ev.Times; k++ {
-				if l.Pkg == "pkgb" {
+				switch {
+				case l.Pkg == "pkgb" && l.Via:
+					pkgb.LogVia(l.Sev, l.Text)
+				case l.Pkg == "pkgb":
 					pkgb.Log(l.Sev, l.F, l.Text)
-				} else {
+				case l.Via:
+					pkga.LogVia(l.Sev, l.Text)
+				default:
 					pkga.Log(l.Sev, l.F, l.Text)
 				}
 			}
